@@ -442,6 +442,10 @@ func (e *SEnv) specEq(a, b Val) Term {
 			Eq(Select(a.C[0], Add(a.C[1], j)), Select(ba, Add(b.C[1], j))))))
 	}
 	if a.T == nil || b.T == nil {
+		if (a.T == nil && len(a.C) == 1 && strings.HasPrefix(a.C[0].S, "nevercalled")) || (b.T == nil && len(b.C) == 1 && strings.HasPrefix(b.C[0].S, "nevercalled")) {
+			// lastret(...) of a function that was not called on this path: an arbitrary value
+			return Fresh("nevercalled_eq", SBool)
+		}
 		if len(a.C) != 1 || len(b.C) != 1 {
 			sfail("== between spec value and %d-component value", len(a.C)+len(b.C)-1)
 		}
@@ -763,6 +767,18 @@ func (e *SEnv) evalCall(n *SCall) Val {
 				was = Sym(fmt.Sprintf("%s@%d", info.sym, e.old.epoch), info.sort)
 			}
 			if now.S == was.S {
+				continue
+			}
+			// entrymem("T.f", ...): heap components the function is allowed to have written
+			skip := false
+			for _, a := range n.Args {
+				if sl, isStr := a.(*SStrL); isStr {
+					if i := strings.LastIndex(sl.V, "."); i > 0 && strings.HasSuffix(k, "|"+sl.V[i+1:]) && strings.Contains(k, sl.V[:i]+"|") {
+						skip = true
+					}
+				}
+			}
+			if skip {
 				continue
 			}
 			rv := BoundVar("r")
